@@ -618,6 +618,9 @@ func (s *Schema) Canonical(o CanonOpts) string {
 	}
 	lines = append(lines, fmt.Sprintf("roots query=%s mutation=%s subscription=%s%s", q, mu, su, bd))
 	for _, d := range m.Defs {
+		if d.Kind == KScalar && builtinScalars[d.Name] {
+			continue // a built-in scalar declared again: the root keeps its own, nothing is defined
+		}
 		var b strings.Builder
 		fmt.Fprintf(&b, "%s %s", d.Kind, d.Name)
 		if !o.NoDesc && d.Desc != "" {
